@@ -14,7 +14,7 @@ TARGETS = {
     # provider/src/write/state.rs: the whole write state machine (C03, C02)
     "StateGen": {
         "src": "provider/src/write/state.rs",
-        "args": ["--types", "State,ObjectState,ArrayState", "--extern-enum", "WriteResult=WR_", "--import", "Gen.CodesGen"],
+        "args": ["--types", "State,ObjectState,ArrayState", "--extern-enum", "WriteResult=WR_", "--import", "Gen.CodesGen", "--derive-eq"],
     },
     # provider/src/log.rs: Logs::append (the copy plan) and Logs::read_ptrs (what the host reads) (C05)
     "LogFnGen": {
@@ -35,12 +35,14 @@ TARGETS = {
         "src": "provider/src/string_interner.rs",
         "args": ["--types", "StringInterner", "--alias", "InternedStringId=usize", "--only", "preallocate,get"],
     },
-    # provider/src/write.rs: every method of `impl Context` (which state transition and which bytes each ABI call makes) (C03, C02)
+    # provider/src/write.rs: every method of `impl Context` (which state transition and which bytes each ABI call makes) and the
+    # exported functions shopify_function_output_* incl. the native finalize (argument conversions, packing of status and pointer) (C03, C02)
     "WriteCtxGen": {
         "src": "provider/src/write.rs",
         "args": ["--types", "", "--struct", "Context{write_state:State;write_parent_state_stack:Vec<State>;output_bytes:Vec<u8>;string_interner:StringInterner}",
                  "--also", "{repo}/provider/src/write/state.rs:State,ObjectState,ArrayState", "--also", "{repo}/provider/src/string_interner.rs:StringInterner",
-                 "--alias", "InternedStringId=usize", "--extern-enum", "WriteResult=WR_",
+                 "--alias", "InternedStringId=usize", "--alias", "DoubleUsize=Val", "--extern-enum", "WriteResult=WR_",
+                 "--wrappers", "Context", "--skip", "verif_output_bytes",
                  "--append-fn", "encode::write_bool=write_bool", "--append-fn", "encode::write_nil=write_nil", "--append-fn", "encode::write_sint=write_sint",
                  "--append-fn", "encode::write_f64=write_f64", "--append-fn", "encode::write_str_len=write_str_len",
                  "--append-fn", "encode::write_map_len=write_map_len", "--append-fn", "encode::write_array_len=write_array_len",
